@@ -3,6 +3,7 @@ package drive
 import (
 	"encoding/hex"
 	"fmt"
+	"github.com/btcsuite/btcd/btcec/v2/schnorr"
 	"math/rand"
 
 	"github.com/btcsuite/btcd/btcutil"
@@ -163,6 +164,9 @@ func (g *bridgeGen) newDepositTx(flaw string) *depInfo {
 	if keyType(key) == "secp256k1" && g.r.Intn(2) == 0 {
 		version = 1
 	}
+	if keyType(key) == "schnorr" && g.r.Intn(4) == 0 {
+		return g.schnorrV1ShapedDeposit(key, evm)
+	}
 	qs := bitcoinkeeper.NewQueryServerImpl(c.App.BitcoinKeeper)
 	resp, err := qs.DepositAddress(c.ReadCtx(), &bitcointypes.QueryDepositAddress{Version: version, EvmAddress: "0x" + hex.EncodeToString(evm)})
 	if err != nil {
@@ -193,6 +197,34 @@ func (g *bridgeGen) newDepositTx(flaw string) *depInfo {
 	}
 	d.nOuts = len(outs)
 	d.raw, d.txid = btc.Tx(g.r, outs, 0)
+	return d
+}
+
+// schnorrV1ShapedDeposit builds what a version 1 deposit WOULD look like for a Schnorr relayer key - output 0 pays the key's
+// own (taproot key-path) address, output 1 carries OP_RETURN magic||evm - although the node hands out no such address:
+// version 1 exists only for ECDSA keys, so the claim must be refused.  The scripts are built with btcd, not with the node's code.
+func (g *bridgeGen) schnorrV1ShapedDeposit(key *sim.BtcKey, evm []byte) *depInfo {
+	c := g.s.C
+	params, err := c.App.BitcoinKeeper.Params.Get(c.ReadCtx())
+	if err != nil {
+		return nil
+	}
+	pk, err := schnorr.ParsePubKey(key.Pub.GetSchnorr())
+	if err != nil {
+		return nil
+	}
+	out0, err := txscript.NewScriptBuilder().AddOp(txscript.OP_1).AddData(schnorr.SerializePubKey(txscript.ComputeTaprootKeyNoScript(pk))).Script()
+	if err != nil {
+		return nil
+	}
+	out1, err := txscript.NewScriptBuilder().AddOp(txscript.OP_RETURN).AddFullData(append(append([]byte{}, params.DepositMagicPrefix...), evm...)).Script()
+	if err != nil {
+		return nil
+	}
+	value := int64(9000 + g.r.Intn(60000))
+	d := &depInfo{version: 1, key: key, evm: evm, value: value, outIdx: 0, nOuts: 2,
+		gen: Ev{"key": project.KeyID(key.Pub), "evm": hex.EncodeToString(evm), "version": 1, "magicOk": true}}
+	d.raw, d.txid = btc.Tx(g.r, []btc.Out{{Value: value, Script: out0}, {Value: 0, Script: out1}}, 0)
 	return d
 }
 
